@@ -3,6 +3,7 @@ import MW.Chain.World
 import MW.Inv.WorldInv
 import MW.Inv.WorldRecover
 import MW.Inv.Demo
+import MW.Staking.Interface
 /-!
 # C07 — Outbound IBC transfers are tracked and recovered without loss or duplication
 -/
@@ -314,5 +315,15 @@ end Demo
 /-- non-vacuity: a refundable packet is selected, a sent one is not -/
 example : refundable "r" { seq := 1, coin := ⟨"d", 5⟩, receiver := "r", status := .timedOut } = true
     ∧ refundable "r" { seq := 2, coin := ⟨"d", 5⟩, receiver := "r", status := .sent } = false := by decide
+
+/-- the statements of this file quantify over every message the staking contract accepts: the `ExecuteMsg` the source
+declares (table regenerated from /repo's `msg.rs` on every run) has exactly the variants, fields and types of the
+model's `ExecMsg`, and the contract exports exactly the modelled entry points.  A message or entry point added to the
+source — which no generated history would exercise — breaks this theorem -/
+theorem messages_are_the_modelled_ones :
+    MW.Generated.Interface.staking_execute = MW.Interface.model_staking_execute
+    ∧ (∀ m : MW.Staking.ExecMsg, MW.Interface.execTag m ∈ MW.Interface.names MW.Generated.Interface.staking_execute)
+    ∧ MW.Generated.Interface.staking_entry_points = ["execute", "instantiate", "migrate", "query", "reply", "sudo"] :=
+  ⟨MW.Interface.staking_execute_eq, MW.Interface.staking_execute_covered.2, MW.Interface.staking_entry_points_eq⟩
 
 end MW.Props.C07
